@@ -265,11 +265,16 @@ Definition p_read (ans : Z) (s : pobj) (w : world) : pres * pobj * world :=
   (* noted:  return ::read(fdStdOutRead, buffer, len);  also when fdStdOutRead == 0 (descriptor 0 of the caller) *)
   (RIo ans, s, emit (KRead (p_out s)) w).
 
-(* ssize Process::read(void* buffer, usize length, uint& streams) *)
+(* ssize Process::read(void* buffer, usize length, uint& streams)
+   round 5 (fixes/C20/12): the descriptors asked for go into a pollfd array and poll(fds, count, -1) waits without a
+   time-out (was: an fd_set on the stack and select() with a 1000 s time-out whose `continue` re-entered select with the
+   emptied set).  KSelect = "asked the kernel which descriptor is readable"; [ready] = the streams whose revents are set
+   when it returns (stdout is served first).  With no time-out there is no time-out answer: how long the child stays
+   silent is not an input of this function (the check drives silences through the recorder all the same). *)
 Definition p_read2 (streams ready ans : Z) (s : pobj) (w : world) : pres * pobj * world :=
   let so := flag streams 1 && negb (p_out s =? 0) in
   let se := flag streams 2 && negb (p_err s =? 0) in
-  if negb (so || se) then (RRefused, s, w)          (* maxFd == 0 *)
+  if negb (so || se) then (RRefused, s, w)          (* count == 0 *)
   else
     let w := emit KSelect w in
     if so && flag ready 1 then (RIo2 ans 1, s, emit (KRead (p_out s)) w)
